@@ -349,8 +349,9 @@ class LoopMixin:
             for o in self.exec_block(stmt.body, b):
                 if o.kind in ("normal", "continue"):
                     nidx = idx + 1 if is_for else None
+                    self._pres_paths[tag] = self._pres_paths.get(tag, 0) + 1
                     for k, inv in enumerate(spec["inv"]):
-                        self.oblige("%s/inv-pres-%d" % (tag, k), o.st, self.spec.boolean(inv, self.inv_env(o.st, spec, nidx)), "inv-pres")
+                        self.oblige("%s/inv-pres-%d%s" % (tag, k, "" if self._pres_paths[tag] == 1 else "@path-%d" % self._pres_paths[tag]), o.st, self.spec.boolean(inv, self.inv_env(o.st, spec, nidx)), "inv-pres")
                     if "decreases" in spec:
                         m1 = self.spec.eval(spec["decreases"], self.inv_env(o.st, spec, nidx)).e
                         self.oblige("%s/decreases" % tag, o.st, z3.And(measure0 >= 0, m1 < measure0), "decreases")
